@@ -205,8 +205,9 @@ def get_Werner_eof(dim:int, alpha:np.ndarray|float):
     ind0 = a<0
     if np.any(ind0):
         a = a[ind0]
-        tmp0 = (1-np.sqrt(1-a*a))/2
-        ret[ind0] = -tmp0*np.log(tmp0) - (1-tmp0)*np.log(1-tmp0)
+        tmp0 = (1-np.sqrt(np.maximum(0,1-a*a)))/2
+        # xlogy(0,0)=0, otherwise nan just above the separable threshold where tmp0 underflows to 0
+        ret[ind0] = -scipy.special.xlogy(tmp0,tmp0) - scipy.special.xlogy(1-tmp0,1-tmp0)
     ret = ret.reshape(shape)
     return ret
 
@@ -296,7 +297,9 @@ def get_Isotropic_eof(dim:int, alpha:np.ndarray|float):
     ind0 = np.logical_and(F>1/dim, F<=(4*(dim-1)/(dim*dim)))
     if np.any(ind0):
         gamma = (np.sqrt(F[ind0])+np.sqrt((dim-1)*(1-F[ind0])))**2/dim
-        tmp0 = -gamma*np.log(gamma) - (1-gamma)*np.log(1-gamma)
+        gamma = np.clip(gamma, 0, 1)
+        # xlogy(0,0)=0, otherwise nan just above the separable threshold where gamma rounds to 1
+        tmp0 = -scipy.special.xlogy(gamma,gamma) - scipy.special.xlogy(1-gamma,1-gamma)
         tmp1 = (1-gamma)*np.log(dim-1)
         ret[ind0] = tmp0 + tmp1
     ind1 = F>(4*(dim-1)/(dim*dim))
